@@ -70,6 +70,10 @@ def inline_constants(trees, report):
                 bound.setdefault(st.targets[0].id, []).append(st)
             elif isinstance(st, ast.AnnAssign) and isinstance(st.target, ast.Name) and st.value is not None:
                 bound.setdefault(st.target.id, []).append(st)
+            elif isinstance(st, ast.Assign) and len(st.targets) == 1 and isinstance(st.targets[0], ast.Tuple) and isinstance(st.value, ast.Tuple) and len(st.targets[0].elts) == len(st.value.elts) and all(isinstance(x, ast.Name) for x in st.targets[0].elts):
+                # A, B = 'x', 1  at module level: two constants
+                for tname, v in zip(st.targets[0].elts, st.value.elts):
+                    bound.setdefault(tname.id, []).append(ast.copy_location(ast.Assign(targets=[tname], value=v), st))
         stable = {n for n in dir(_b) if not n.startswith("_")} - module_globals(tree)
         for st in tree.body:
             if isinstance(st, (ast.FunctionDef, ast.AsyncFunctionDef, ast.ClassDef)):
@@ -124,7 +128,8 @@ def inline_constants(trees, report):
                 if not _immutable_literal(value):
                     membership = isinstance(par, ast.Compare) and len(par.ops) == 1 and isinstance(par.ops[0], (ast.In, ast.NotIn)) and par.comparators[0] is n
                     lookup = isinstance(par, ast.Subscript) and par.value is n and isinstance(par.ctx, ast.Load)
-                    if not (membership or lookup):
+                    readonly = isinstance(par, ast.Attribute) and par.value is n and par.attr in ("items", "keys", "values", "get") and isinstance(pm.get(id(par)), ast.Call) and pm[id(par)].func is par
+                    if not (membership or lookup or readonly):
                         continue
                 if origin[n.id] != rel and any(isinstance(x, ast.Name) for x in ast.walk(value)):
                     continue  # names of the defining module are not necessarily visible here
